@@ -132,3 +132,121 @@ Proof.
   exists (mk_case_params [8;4;8;4;1;0;2;1;0;1;232] [0;-1] [[0];[0;0;0]]), 0, 0, (bits_of_bytes [0;1;255;255;0;0]).
   vm_compute. eexists. eexists. repeat split; try reflexivity. discriminate.
 Qed.
+
+(* =====================================================================================================
+   HEADER AGREEMENT (appended by the C02 stage-2 engineer).  Proofs/HeadersAgree.v.
+   The validator's bit-level header reader (Model/Headers.v, property C02) and the deserialiser's description
+   (Model/SerDesVC2.v sequence_header_prog, run by the SerDes interpreter of Model/SerDes.v, properties C21/C06)
+   are two independently written models, each tied to its own Python code by its own correspondence run.
+   COVERED: the whole (11.1) sequence_header = parse_parameters, base_video_format, all eight custom-override
+   blocks of source_parameters (frame_size, color_diff_sampling_format, scan_format, frame_rate,
+   pixel_aspect_ratio, clean_area, signal_range, color_spec with color_primaries / color_matrix /
+   transfer_function), picture_coding_mode.
+   and the (14.2) fragment_header (C08_fragment_header_agree at the end of this file).
+   NOT COVERED (Model/SerDesVC2.v has no description of them): picture_header, transform_parameters
+   (extended_transform_parameters, slice_parameters, quant_matrix); parse_info (the description exists inside
+   unit_prog, not attempted) -- for these the header agreement stays oracle-only (tools/harness/C08.py).
+   ===================================================================================================== *)
+From VC2 Require Import Model.SerDes Model.SerDesVC2.
+From VC2 Require Import Model.Headers Proofs.HeadersAgree.
+
+(* For EVERY state s of the validator (any unread bit string, any position, any previous level history), all
+   tables, all level predicates and any fuel: whenever the validator reads a sequence header without a
+   conformance error (HOk), the Deserialiser run on the same unread bits (i) succeeds -- it never fails where the
+   validator succeeds --, (ii) is left with the same unread bits at the same bit position (consumed the same
+   number of bits), (iii) produces the context  SequenceHeader{parse_parameters{major, minor, profile, level},
+   base_video_format, video_parameters = Gsp, picture_coding_mode}  and (iv) the validator's
+   _level_constrained_values -- the dictionary in which assert_level_constraint records every coded field of the
+   header: the four parse parameters, base_video_format, every custom_*_flag, every preset index, every custom
+   value, picture_coding_mode -- is exactly the previous dictionary with the deserialised fields inserted under
+   their level-constraint names (HeadersAgree.key_of), in stream order except that the validator asserts the parse
+   parameters in the order level, profile, major_version, minor_version; (v) state["picture_coding_mode"] is the
+   deserialised field. *)
+Theorem C08_sequence_header_agree : forall T lvl fuel s s',
+  Headers.sequence_header T lvl fuel s = Headers.HOk (tt, s') ->
+  exists a b c d bvf Gsp pcm st',
+    SerDes.run SerDes.des_step sequence_header_prog
+      (SerDes.mkst 0 [] [] [] (HeadersAgree.io_of (Headers.s_rd s))) = SerDes.Ok (tt, st') /\
+    SerDes.sio st' = HeadersAgree.io_of (Headers.s_rd s') /\
+    SerDes.root st' = SerDes.VC 10 (HeadersAgree.seqhdr_context a b c d bvf Gsp pcm) /\
+    HeadersAgree.lcvh s' =
+      fold_left HeadersAgree.hset' (HeadersAgree.seqhdr_level_values a b c d bvf Gsp pcm) (HeadersAgree.lcvh s) /\
+    Headers.s_st s' Headers.S_picture_coding_mode = Some pcm.
+Proof. exact HeadersAgree.sequence_header_agree. Qed.
+
+(* the same with the real entry point `run_des` (a fresh Deserialiser on the bit list), validator at bit 0 *)
+Theorem C08_sequence_header_agree_run_des : forall T lvl fuel s s',
+  Headers.r_pos (Headers.s_rd s) = 0 ->
+  Headers.sequence_header T lvl fuel s = Headers.HOk (tt, s') ->
+  exists a b c d bvf Gsp pcm st',
+    SerDes.run_des sequence_header_prog (Headers.r_bits (Headers.s_rd s)) = SerDes.Ok (tt, st') /\
+    SerDes.bits (SerDes.sio st') = Headers.r_bits (Headers.s_rd s') /\
+    SerDes.pos (SerDes.sio st') = Headers.r_pos (Headers.s_rd s') /\
+    SerDes.root st' = SerDes.VC 10 (HeadersAgree.seqhdr_context a b c d bvf Gsp pcm) /\
+    HeadersAgree.lcvh s' =
+      fold_left HeadersAgree.hset' (HeadersAgree.seqhdr_level_values a b c d bvf Gsp pcm) (HeadersAgree.lcvh s) /\
+    Headers.s_st s' Headers.S_picture_coding_mode = Some pcm.
+Proof. exact HeadersAgree.sequence_header_agree_run_des. Qed.
+
+(* the generic half, reusable for further descriptions: on every well-formed simple description (uint, uint_lit,
+   flag-guarded block, preset-index-guarded block, subcontext, sequence) the Deserialiser interpreter -- context
+   stack, holes, set_context_type patching, index bookkeeping, verification when a context is left -- does what the
+   obvious reading `sem` says *)
+Theorem C08_deserialiser_refines_simple_descriptions : forall d ty F stk r F' r',
+  HeadersAgree.wf d = true -> (forall t, In t (HeadersAgree.targets d) -> ~ In t (HeadersAgree.keys F)) ->
+  HeadersAgree.simple F -> SerDes.rem r = None ->
+  HeadersAgree.sem d F r = Some (F', r') ->
+  SerDes.run SerDes.des_step (HeadersAgree.compile d) (HeadersAgree.mk ty F stk r) =
+    SerDes.Ok (tt, HeadersAgree.mk ty F' stk r') /\ HeadersAgree.simple F' /\ SerDes.rem r' = None.
+Proof. exact HeadersAgree.des_refines. Qed.
+
+(* field-by-field reading of (iv): pairs with distinct keys inserted into a dictionary can each be looked up *)
+Theorem C08_level_values_lookup : forall L h k v,
+  NoDup (map fst L) -> In (k, v) L -> Headers.lookup (fold_left HeadersAgree.hset' L h) k = Some v.
+Proof. exact HeadersAgree.lookup_fold_in. Qed.
+
+(* non-vacuity: a 16 bit sequence header on both sides (context, bit position 16, the fourteen level values) *)
+Example C08_header_agreement_example :
+  exists s' st',
+    Headers.sequence_header (HeadersProofs.toy_tables true) (fun _ _ _ => true)
+      (Headers.fuel_for (Headers.bits_of_bytes [62; 1]))
+      (Headers.init_S [] None None (Headers.bits_of_bytes [62; 1]) 0) = Headers.HOk (tt, s') /\
+    SerDes.run_des sequence_header_prog (Headers.bits_of_bytes [62; 1]) = SerDes.Ok (tt, st') /\
+    SerDes.root st' = SerDes.VC 10
+      [(100, SerDes.VC 11 [(101, SerDes.VI 1); (102, SerDes.VI 0); (103, SerDes.VI 0); (104, SerDes.VI 0)]); (105, SerDes.VI 0);
+       (106, SerDes.VC 12 [(108, SerDes.VC 13 [(109, SerDes.VB false)]); (112, SerDes.VC 14 [(113, SerDes.VB false)]);
+                           (115, SerDes.VC 15 [(116, SerDes.VB false)]); (118, SerDes.VC 16 [(119, SerDes.VB false)]);
+                           (123, SerDes.VC 17 [(124, SerDes.VB false)]); (127, SerDes.VC 18 [(128, SerDes.VB false)]);
+                           (133, SerDes.VC 19 [(134, SerDes.VB false)]); (139, SerDes.VC 20 [(140, SerDes.VB false)])]);
+       (107, SerDes.VI 0)] /\
+    SerDes.pos (SerDes.sio st') = 16 /\ Headers.r_pos (Headers.s_rd s') = 16 /\
+    Headers.s_lcv s' = Some [(Headers.K_level, 0); (Headers.K_profile, 0); (Headers.K_major_version, 1);
+                             (Headers.K_minor_version, 0); (Headers.K_base_video_format, 0);
+                             (Headers.K_custom_dimensions_flag, 0); (Headers.K_custom_color_diff_format_flag, 0);
+                             (Headers.K_custom_scan_format_flag, 0); (Headers.K_custom_frame_rate_flag, 0);
+                             (Headers.K_custom_pixel_aspect_ratio_flag, 0); (Headers.K_custom_clean_area_flag, 0);
+                             (Headers.K_custom_signal_range_flag, 0); (Headers.K_custom_color_spec_flag, 0);
+                             (Headers.K_picture_coding_mode, 0)].
+Proof. exact HeadersAgree.agree_example. Qed.
+
+(* (14.2) fragment_header.  Whenever the validator reads a fragment header without a conformance error (from any
+   state: the picture-number / fragment-continuity checks it makes in between have passed), the Deserialiser run on the
+   same unread bits succeeds, ends at the same position with the same unread bits, and its FragmentHeader context is
+   picture_number, fragment_data_length, fragment_slice_count [, fragment_x_offset, fragment_y_offset] with exactly
+   the values the validator stored in state[...]; the two offsets are present iff fragment_slice_count <> 0. *)
+Theorem C08_fragment_header_agree : forall T s s',
+  Headers.fragment_header T s = Headers.HOk (tt, s') ->
+  exists pn len cnt xy st',
+    SerDes.run SerDes.des_step fragment_header_prog
+      (SerDes.mkst 0 [] [] [] (HeadersAgree.io_of (Headers.s_rd s))) = SerDes.Ok (tt, st') /\
+    SerDes.sio st' = HeadersAgree.io_of (Headers.s_rd s') /\
+    SerDes.root st' = SerDes.VC 32 (HeadersAgree.fragment_context pn len cnt xy) /\
+    Headers.s_st s' Headers.S_picture_number = Some pn /\
+    Headers.s_st s' Headers.S_fragment_data_length = Some len /\
+    Headers.s_st s' Headers.S_fragment_slice_count = Some cnt /\
+    match xy with
+    | None => cnt = 0
+    | Some (x, y) => cnt <> 0 /\ Headers.s_st s' Headers.S_fragment_x_offset = Some x /\
+                     Headers.s_st s' Headers.S_fragment_y_offset = Some y
+    end.
+Proof. exact HeadersAgree.fragment_header_agree. Qed.
